@@ -373,7 +373,7 @@ def check_base(name, doc, label, tag, st):
     text = O.render(doc)
     out = []
     base = _validate(name, text, ts, st)
-    opk = ":".join((tag or "").split(":")[:2])
+    opk = ":".join((tag or "").split(":")[:3])
     if base[0] == "raise":
         if st is not None:
             st.n("validator_raised")
